@@ -429,6 +429,21 @@ HttpResponse Http::request(HttpRequest& request)
 	response.setCode(parts[1]);
 	response.readHeaders();
 
+	while (response.code() == 100) // interim answer to "Expect: 100-continue": the final response follows
+	{
+		line = socket.readLine();
+		parts = line.split();
+		if (parts.length() < 2) {
+			socket.close();
+			response.setCode(0);
+			response.setSockError(socket.errorMsg());
+			return response;
+		}
+		response.setProto(parts[0]);
+		response.setCode(parts[1]);
+		response.readHeaders();
+	}
+
 	int code = response.code();
 
 	if (request.followRedirects() && (code == 301 || code == 302 || code == 307 || code == 308)) // 303 ?
